@@ -147,12 +147,13 @@ FamC03v(dummy) ==
   IN  {Run(P, <<>>, IF P.kind.spawn \/ P.kind.async THEN ItemIds(P, {"and_then"}) ELSE {}) :
          P \in {Q \in Ps : ~(Q.kind.async /\ HasOp(Q, "or"))}}      \* futures have no `.or`
 
+SumDepth(P) == LET f[i \in 0 .. NB(P)] == IF i = 0 THEN 0 ELSE f[i - 1] + Depth(P, i - 1) IN f[NB(P)]
 \* ---- C06: abort.  Later steps carry captures, call operands and a handler.
 StepC06(b, k) ==
   IF k = 0 THEN <<Item(IdOf(b, 0, 1), "and_then", "closure", <<>>)>>
   ELSE <<Item(IdOf(b, k, 1), "and_then", "block", <<>>), Item(IdOf(b, k, 2), "map", "call", <<>>)>>
 FamC06(dummy) ==
-  UNION {{Run(P, pl, IF (P.kind.spawn /\ ~P.kind.async) \/ (P.kind.async /\ (Tier # "quick" \/ NB(P) <= 2))
+  UNION {{Run(P, pl, IF (P.kind.spawn /\ ~P.kind.async) \/ (P.kind.async /\ (NB(P) <= 2 \/ (Tier # "quick" /\ SumDepth(P) <= 6)))
                      THEN ItemIds(P, {"and_then"}) ELSE {}) :
             pl \in FailPlans(ItemIds(P, {"and_then"}), IF Tier = "quick" THEN 1 ELSE 2)} :
          P \in {Build(kd, "res", pr, StepC06, NoName, ExprInit, "map") : kd \in TryKinds,
